@@ -431,7 +431,10 @@ class EOM:
         results = WallGoResults()
         results.hasOutOfEquilibrium = self.includeOffEq
 
-        self.pressAbsErrTol = 1e-8
+        # Pressures scale like Tnucl^4: an absolute tolerance must scale in the same way,
+        # otherwise the first pressure evaluations are left unconverged in unit systems
+        # where the temperature is small
+        self.pressAbsErrTol = 1e-8 * self.thermo.Tnucl**4
 
         # Get the pressure at vw = wallVelocityMax
         if wallPressureResultsMax is None:
